@@ -526,6 +526,7 @@ func runC18(p *core.Prog, r *core.Report) {
 			r.Check(carried == "", "C18.R1", "unmarshalVT/entry-state", "the key and the value of a Kv entry come from that entry alone: the decoding variables start empty for every entry (an entry that omits a field, or carries an empty one, must not inherit the previous entry's)", "the "+carried+" inserted into Kv can be carried over from the previous entry (variable live across iterations of the field loop)", p.Pos(mu.Pos()))
 		})
 	})
+	r.Guard("C18.R1", "varint-accumulators", "every varint starts from zero", func() { checkVarintAccumulatorsFresh(p, r, "C18.R1") })
 	r.Guard("C18.R3", "marshaller-contracts", "every marshaller: size and both parts", func() { checkMarshallerContracts(p, r, nil) })
 	r.Guard("C18.R3", "default-marshaller", "default marshaller recounts", func() {
 		def := p.Func(pkgMarsh, "Default")
